@@ -13,7 +13,7 @@ t=$(timeout 900 cargo test --offline --lib --test packing --test potential 2>&1 
 res="$res | baseline: $t"
 w=$(timeout 900 cargo test --offline --test seed_demo 2>&1 | grep -E "^test result|error(\[|:)" | head -2 | tr '\n' ' ')
 res="$res | demo WITH change: $w"
-git checkout -q -- src
+git apply -R $d/patch.diff 2>/dev/null || git checkout -q -- src
 wo=$(timeout 900 cargo test --offline --test seed_demo 2>&1 | grep -E "^test result|error(\[|:)" | head -2 | tr '\n' ' ')
 res="$res | demo WITHOUT change: $wo"
 cd /; git -C /repo worktree remove --force $W
